@@ -647,11 +647,101 @@ fn run_cs(w: &[&str], ctx: &mut Ctx) -> String {
                     };
                     out.push(format!("{}~pa={}~{}~{}", op, pa_str(&per), if bframes.is_empty() { "-".to_owned() } else { bframes.iter().map(show_batch).collect::<Vec<_>>().join("&") }, r));
                 }
+                b's' => {
+                    // Session::prepare_batch: every unprepared statement prepared on all nodes ON ITS OWN and replaced in place
+                    let body = &op[1..];
+                    if body.len() % 2 != 0 || body.is_empty() || body.len() > 12 {
+                        return "bad-case".to_owned();
+                    }
+                    let mut batch = Batch::new(BatchType::Unlogged);
+                    batch.set_consistency(Consistency::Quorum);
+                    batch.set_timestamp(Some(2000 + idx as i64));
+                    // (kind, text, page size given at this position, consistency given at this position)
+                    let mut kinds: Vec<(u8, usize, i32, Option<Consistency>)> = Vec::new();
+                    for (j, ch) in body.as_bytes().chunks(2).enumerate() {
+                        let t = (ch[1] as char).to_digit(10).map(|d| d as usize).filter(|t| *t < 5);
+                        let Some(t) = t else { return "bad-case".to_owned() };
+                        match ch[0] {
+                            b'q' => {
+                                let mut q = Statement::new(CS_TEXTS[t]);
+                                let cl = [Consistency::One, Consistency::Quorum, Consistency::LocalQuorum][j % 3];
+                                q.set_page_size(100 + j as i32);
+                                q.set_consistency(cl);
+                                batch.append_statement(BatchStatement::Query(q));
+                                kinds.push((b'q', t, 100 + j as i32, Some(cl)));
+                            }
+                            b'p' => {
+                                batch.append_statement(handles[t].clone());
+                                kinds.push((b'p', t, handles[t].get_page_size(), handles[t].get_consistency()));
+                            }
+                            _ => return "bad-case".to_owned(),
+                        }
+                    }
+                    let res = cs.get_session().prepare_batch(&batch).await;
+                    let frames: Vec<Req> = user_frames(&cluster).into_iter().skip(before).collect();
+                    let unprep = state.lock().unwrap().unprepared_at.clone();
+                    let (_rp, per) = show_pa(&frames, n, &unprep, ctx);
+                    for t in per.keys() {
+                        if !kinds.iter().any(|k| k.0 == b'q' && k.1 == *t) {
+                            ctx.fail(format!("prepare_batch caused a PREPARE of text {} which is not an unprepared statement of the batch", t));
+                        }
+                    }
+                    if frames.iter().any(|f| !matches!(f.parsed, Parsed::Prepare { .. })) {
+                        ctx.fail("prepare_batch sent something else than PREPARE".to_owned());
+                    }
+                    last_failed = res.is_err();
+                    let (st, r) = match &res {
+                        Ok(pb) => {
+                            // every node was asked about every unprepared statement's text
+                            for k in kinds.iter().filter(|k| k.0 == b'q') {
+                                if per.get(&k.1).map(|c| c.iter().any(|x| *x == 0)).unwrap_or(true) {
+                                    ctx.fail(format!("prepare_batch succeeded although some node was never asked to prepare text {}", k.1));
+                                }
+                            }
+                            if pb.statements.len() != kinds.len() || pb.get_type() != BatchType::Unlogged || pb.get_consistency() != Some(Consistency::Quorum) || pb.get_timestamp() != Some(2000 + idx as i64) {
+                                ctx.fail("prepare_batch changed the number of statements / type / consistency / timestamp of the batch".to_owned());
+                            }
+                            let mut shown = Vec::new();
+                            for (j, (s, k)) in pb.statements.iter().zip(kinds.iter()).enumerate() {
+                                match s {
+                                    BatchStatement::PreparedStatement(ps) => {
+                                        // position j holds the statement prepared from the text GIVEN AT POSITION j, with that
+                                        // position's page size and consistency (a prepared statement: the same handle)
+                                        let id_ok = if k.0 == b'p' { ps.get_id() == handles[k.1].get_id() } else { ps.get_id()[..] == cs_id(CS_TEXTS[k.1], 0)[..] || ps.get_id()[..] == cs_id(CS_TEXTS[k.1], 1)[..] };
+                                        if ps.get_statement() != CS_TEXTS[k.1] || !id_ok || ps.get_page_size() != k.2 || ps.get_consistency() != k.3 {
+                                            ctx.fail(format!("prepare_batch: position {} (text {}, page size {}) now holds text x{} id {} page size {}", j, k.1, k.2, hex(ps.get_statement().as_bytes()), show_id(ps.get_id()), ps.get_page_size()));
+                                        }
+                                        shown.push(format!("{}/{}/{}", show_id(ps.get_id()), ps.get_page_size(), ps.get_consistency().map(|c| (c as u16).to_string()).unwrap_or_else(|| "-".into())));
+                                    }
+                                    _ => {
+                                        ctx.fail(format!("prepare_batch succeeded but position {} is still unprepared", j));
+                                        shown.push("unprepared".to_owned());
+                                    }
+                                }
+                            }
+                            (shown.join(","), "ok".to_owned())
+                        }
+                        Err(e) => ("-".to_owned(), prep_err(e)),
+                    };
+                    out.push(format!("{}~pa={}~st={}~{}", op, pa_str(&per), st, r));
+                }
                 _ => return "bad-case".to_owned(),
             }
         }
         out.join(" ; ")
     })
+}
+
+fn prep_err(e: &scylla::errors::PrepareError) -> String {
+    use scylla::errors::PrepareError;
+    match e {
+        PrepareError::PreparedStatementIdsMismatch => "err:prep:mismatch".to_owned(),
+        PrepareError::AllAttemptsFailed { first_attempt } => match first_attempt {
+            scylla::errors::RequestAttemptError::DbError(d, _) => format!("err:prep:allfailed:{}", d.code(&scylla::frame::protocol_features::ProtocolFeatures::default())),
+            _ => "err:prep:allfailed:?".to_owned(),
+        },
+        _ => "err:prep:other".to_owned(),
+    }
 }
 
 fn exec_err(e: &scylla::errors::ExecutionError) -> String {
